@@ -40,12 +40,34 @@ func Encode(n datamodel.Node, w io.Writer) error {
 	// Shell out directly to generic inspection path.
 	//  (There's not really any fastpaths of note for json.)
 	// Write another function if you need to tune encoding options about whitespace.
-	return dagjson.Marshal(n, rfmtjson.NewEncoder(w, rfmtjson.EncodeOptions{
+	ew := &errWriter{w: w}
+	if err := dagjson.Marshal(n, rfmtjson.NewEncoder(ew, rfmtjson.EncodeOptions{
 		Line:   []byte{'\n'},
 		Indent: []byte{'\t'},
 	}), dagjson.EncodeOptions{
 		EncodeLinks: false,
 		EncodeBytes: false,
 		MapSortMode: codec.MapSortMode_None,
-	})
+	}); err != nil {
+		return err
+	}
+	return ew.err
+}
+
+// errWriter latches the first error of the underlying writer:
+// the refmt JSON encoder does not report write errors itself.
+type errWriter struct {
+	w   io.Writer
+	err error
+}
+
+func (ew *errWriter) Write(p []byte) (int, error) {
+	if ew.err != nil {
+		return 0, ew.err
+	}
+	n, err := ew.w.Write(p)
+	if err != nil {
+		ew.err = err
+	}
+	return n, err
 }
